@@ -500,7 +500,7 @@ def State.handleSettings (s : State) (ack : Bool) (ss : List (Nat × Nat)) : Sta
       let delta : Int := (v : Int) - (s.maxConc : Int)
       let s := { s with maxConc := v, quota := s.quota + delta }
       if delta > 0 && s.waiting > 0 then { s with chanGen := s.chanGen + 1, token := false } else s
-  { s with cbuf := s.cbuf ++ [.settingsAck] }
+  s.put .settingsAck
 
 /-- the streams `handleGoAway` marks: `streamID > id && streamID <= upperLimit` over `t.activeStreams` -/
 def isVictim (id upper : Nat) (st : Strm) : Bool := st.inActive && st.id > id && st.id ≤ upper
